@@ -1,7 +1,7 @@
 SPECIFICATION GSpec
 CONSTANTS
   GenForms <- FDateTime
-  GenYears <- OneYear
-  Budget = 3
+  GenYears <- BoundaryYears
+  Budget = 2
 INVARIANTS StructureRecovered DurationRecovered GeneratedAccepted MutationsRejected SmallGoals OutcomesWellFormed
 CHECK_DEADLOCK FALSE
